@@ -1320,6 +1320,64 @@ func init() {
 				jobs = append(jobs, c15Job{qy, []int{rb.Intn(numStart), rb.Intn(numStart)}, "r"})
 				c.Count("source=engine-reuse")
 			}
+			// a longer history on the one engine (the general pool has documents on which queries fail)
+			jobs = append(jobs, c15Job{qy, []int{rb.Intn(numStart), rb.Intn(numStart), rb.Intn(numStart), rb.Intn(numStart)}, "r"})
+			c.Count("source=engine-history")
+		}
+		// histories with FAILING evaluations between successful ones: the failure happens where a
+		// variable is *referenced* (Engine.Evaluate first evaluates every statement on the document
+		// itself, so a definition that fails there never reaches VariableExpr): a variable applied
+		// to an item that is a nil role node / a faulty reference in one document and fine in
+		// another, a variable referenced by a statement that precedes its definition, nested
+		// variables, variables inside objects, Only conditions, function arguments and pipes.
+		histGood := []*TNode{T("HEAD", "", ""), T("INDI", "", "I1", T("NAME", "John /Smith/", ""), T("SEX", "M", ""), T("FAMS", "@F1@", "")),
+			T("INDI", "", "I2", T("NAME", "Jane /Doe/", ""), T("SEX", "F", ""), T("FAMS", "@F1@", "")), T("INDI", "", "I3", T("NAME", "Bob /Jones/", ""), T("FAMS", "@F2@", "")),
+			T("FAM", "", "F1", T("HUSB", "@I1@", "", T("NOTE", "first marriage", "")), T("WIFE", "@I2@", "")), T("FAM", "", "F2", T("HUSB", "@I3@", ""), T("WIFE", "@I2@", "")), T("TRLR", "", "")}
+		histBad := []*TNode{T("HEAD", "", ""), T("INDI", "", "I1", T("NAME", "Jane /Doe/", ""), T("FAMS", "@F1@", "")), T("FAM", "", "F1", T("WIFE", "@I1@", "")), T("FAM", "", "F2"), T("TRLR", "", "")}
+		histBad2 := []*TNode{T("INDI", "", "I1", T("NAME", "A /B/", "")), T("FAM", "", "F1", T("HUSB", "@F1@", ""), T("WIFE", "@I9@", "")), T("FAM", "", "F2", T("HUSB", "@I1@", ""))}
+		var histIDs []int
+		for _, f := range [][]*TNode{histGood, histBad, histBad2} {
+			if d, ok := c15mkDoc(f); ok {
+				pool = append(pool, d)
+				histIDs = append(histIDs, len(pool)-1)
+			}
+		}
+		histQ := []string{
+			"Details are .Nodes; .Families | .Husband | {details: Details}",
+			"Count is Fathers | Length; Fathers are .Families | .Husband | .Value; Count",
+			"V is .Value; .Families | .Husband | Only(V = \"@I1@\") | Length",
+			"V is .Individual | .Pointer; .Families | .Wife | V",
+			"V is .Individual | .Pointer; .Families | .Husband | V",
+			"A is .Nodes; B is A | Length; .Families | .Husband | {n: B}",
+			"A is .Nodes; B is A | Length; .Families | .Wife | {n: B, m: A}",
+			"S is .String; .Families | {s: S}",
+			"S is .String; .Families | .Husband | {s: S}",
+			"S is .Individual | .String; .Families | .Husband | Only(S = \"x\")",
+			"N is .Nodes | Length; .Families | .Husband | First(N)",
+			"P is .Pointer; .Families | .Wife | .Individual | {p: P}",
+			"R is Later | Length; Later are .Families | .Wife | .Nodes; R",
+			"R is .Families | .Husband | Later; Later are .Nodes; R | Length",
+			"D is .Nodes; .Families | Combine(.Husband | D, .Husband | D) | Length",
+			"K is .Tag | .Tag; .Families | .Husband | {k: K} | Length",
+			"Q is ?; .Families | .Husband | .Nodes | Q",
+			"W is .Individual | .Spouses | Length; .Families | .Wife | {w: W}",
+			"X is .Individuals | Only(X); .Families | .Husband | {d: .Nodes}",
+			"Fam is .Families; H is .Husband | .Nodes; Fam | {h: H}",
+		}
+		if len(histIDs) == 3 {
+			gd, bd, b2 := histIDs[0], histIDs[1], histIDs[2]
+			shapes := [][]int{{gd, bd, gd}, {bd, gd}, {gd, b2, gd}, {bd, bd, gd}, {gd, bd, b2, gd, bd}, {b2, bd}, {bd, b2, gd}}
+			for _, qy := range histQ {
+				for _, sh := range shapes {
+					jobs = append(jobs, c15Job{qy, sh, "r"})
+					c.Count("source=engine-history (failing evaluations in between)")
+				}
+				for k := 0; k < 3; k++ {
+					sh := []int{rb.Intn(numStart), histIDs[rb.Intn(3)], rb.Intn(numStart), histIDs[rb.Intn(3)]}
+					jobs = append(jobs, c15Job{qy, sh, "r"})
+					c.Count("source=engine-history (failing evaluations in between)")
+				}
+			}
 		}
 		// list lengths 1 / 65 / 1025 and argument counts 1 / 2 / 8 / 64 / 65 against the Go API
 		for _, n := range []int{1, 65, 1025} {
@@ -1405,9 +1463,17 @@ func init() {
 				c.Sample(map[string]string{"query": j.Query, "document": pool[j.Docs[0]].Text, "result": o.JSON})
 			}
 			c.Tie(c15req(pool, j), o.line("j"))
+			if j.Mode == "r" {
+				if i := strings.Index(o.Hist, "error"); i >= 0 && strings.Contains(o.Hist[i:], "value") {
+					c.Count("engine-history: a value after a failed evaluation of the same engine")
+				}
+				if strings.Contains(o.Hist, "error") {
+					c.Nontrivial("history/" + o.Hist + "/" + c16shape(j.Query))
+				}
+			}
 			if j.Mode == "r" && o.Reuse != "same" && o.Reuse != "" {
-				c.Oracle("", "a compiled query that was already evaluated on another document gives another result than a freshly compiled one",
-					map[string]interface{}{"query": j.Query, "first_document": pool[j.Docs[0]].Text, "second_document": pool[j.Docs[1]].Text}, o.Reuse, "same")
+				c.Oracle("", "one compiled query evaluated several times: every evaluation must give what a freshly compiled query gives on that document, and leave no variable marked as being evaluated",
+					map[string]interface{}{"query": j.Query, "documents_in_order_of_evaluation": c15texts(pool, j.Docs)}, o.Reuse, "same")
 			}
 			if o.Top == "value" {
 				for _, w := range c16menuWords {
